@@ -167,6 +167,11 @@ def check_case(case, ctx):
         kd = gdims[kind]
         shape = shapes[kind]
         n_cells = refmodel.grid_size(spec, kind)
+        # "@grid0": the linear dimension carries the name of a dimension it is wound into (what
+        # ravel(..., linear_dimension=<a grid dimension>) produces)
+        lin = dict(lin, name=kd[0] if lin["name"] == "@grid0" else lin["name"])
+        if lin["name"] == kd[0]:
+            ctx.label("linear_dimension_named_like_a_grid_dimension")
         others = []
         for name, mode in lin["others"]:
             if name in kd or name == lin["name"] or name in [o[0] for o in others]:
@@ -276,7 +281,7 @@ def cases(draw):
         "others": st.lists(st.tuples(st.sampled_from(["time", "depth", "a", "index_7"]),
                                      st.sampled_from([1, 2, 3, "N"])), max_size=2),
         "pos": st.integers(0, 2),
-        "name": st.sampled_from(["index", "cell", "k"]),
+        "name": st.sampled_from(["index", "cell", "k", "@grid0"]),
         "dtype": st.sampled_from(["f8", "i4", "b1", "M8", "f4"]),
         "how": st.sampled_from(["default", "name", "axis", "axis-"]),
         "alias": st.integers(0, 40),
